@@ -160,7 +160,7 @@ void h_lang(void) {
         for nm in ("loc", "inj", "prefix"):
             kb.job("%s.%d" % (nm, occ), "h_%s_%d" % (nm, occ), kind="bounded", unwind=50, replay="hash", timeout=600, props=["C18", "C13"], flags=["--sat-solver", "minisat2"],
                    note="token spelling 1..3 bytes (all byte values), line and column all 2^32 values; loops fully unwound")
-        kb.job("cover.%d" % occ, "h_cover_%d" % occ, kind="cover", unwind=50, props=["C18", "C13"])
+        kb.job("cover.%d" % occ, "h_cover_%d" % occ, kind="cover", unwind=50, props=["C18", "C13"], flags=["--sat-solver", "minisat2"], timeout=900)
     kb.job("dec.lemma", "h_dec_lemma", kind="bounded", unwind=12, flags=["--sat-solver", "cadical"], timeout=600,
            note="digit strings of length <= 10 (every 32-bit value); lemma instantiated by the abstract renderer vout_dec")
     kb.assumptions += ["std::to_string(unsigned) is modelled by prelude/vout.h vout_dec: 1..20 decimal digits, no leading zero, "
